@@ -297,6 +297,27 @@ func run(rt *rapid.T, magnet bool, npieces int, caps []pump.Caps, steps []step, 
 			if herr != nil {
 				labels["peer-disconnected-by-error"] = true
 			}
+		case "msg-pair":
+			// end game: the same block arrives from two peers before the torrent
+			// has heard of either delivery
+			if len(live) < 2 {
+				continue
+			}
+			for _, q := range []*pump.PP{live[0], live[1]} {
+				m := s.M
+				if pc, ok := m.(protocol.Piece); ok {
+					// the handler recycles the data buffer
+					pc.Data = append([]byte(nil), pc.Data...)
+					m = pc
+				}
+				if _, pv := q.Msg(m); pv != "" {
+					return pv + describe(), labels, hist
+				}
+			}
+			labels["same-block-from-two-peers-at-once"] = true
+			if p := w.Drain(); p != "" {
+				return p + describe(), labels, hist
+			}
 		case "cmd":
 			var e peer.PeerEvent
 			total := (int(t.Pieces.Length()) + 16383) / 16384
@@ -461,7 +482,27 @@ func TestC05Messages(t *testing.T) {
 			}
 			pre := []step{{Kind: "msg", P: 0, M: protocol.Bitfield{Bitfield: bf}, Desc: "Bitfield{all}", Wire: 5 + len(bf)},
 				{Kind: "msg", P: 0, M: protocol.Unchoke{}, Desc: "Unchoke", Wire: 5}, {Kind: "cmd", P: 0, Cmd: "request", A: rapid.SampledFrom([]int{0, 14, 21, 21}).Draw(rt, "prefixRequest")}}
-			if rapid.Bool().Draw(rt, "deliverFirst") {
+			if len(caps) >= 2 && rapid.IntRange(0, 1).Draw(rt, "endGame") == 0 {
+				// end game: a second peer is asked for the same blocks, and the block
+				// that completes piece 0 arrives from both at once; the piece is then
+				// hashed for real (and fails: the hashes of this torrent are arbitrary)
+				pre[2].A = 0
+				pre = append(pre, step{Kind: "msg", P: 1, M: protocol.Bitfield{Bitfield: bf}, Desc: "Bitfield{all}", Wire: 5 + len(bf)},
+					step{Kind: "msg", P: 1, M: protocol.Unchoke{}, Desc: "Unchoke", Wire: 5}, step{Kind: "cmd", P: 1, Cmd: "request", A: 0})
+				if plK > 2 {
+					// blocks 2 and 3 as well, from both
+					pre = append(pre, step{Kind: "cmd", P: 0, Cmd: "request", A: 2}, step{Kind: "cmd", P: 1, Cmd: "request", A: 2})
+				}
+				for b := 0; b < plK; b++ {
+					pc := protocol.Piece{Index: 0, Begin: uint32(b * 16384), Data: gen.Fill(78+uint64(b), 16384)}
+					kind := "msg"
+					if b == plK-1 {
+						kind = "msg-pair"
+					}
+					pre = append(pre, step{Kind: kind, P: 0, M: pc, Desc: describeMsg(pc), Wire: 13 + 16384})
+				}
+				pre = append(pre, step{Kind: "settle-hash"})
+			} else if rapid.Bool().Draw(rt, "deliverFirst") {
 				// ... and the peer delivers the first block: with one-block pieces that
 				// completes a piece, which is then hashed for real (the hashes of this
 				// torrent are arbitrary: the piece fails, its contributors are blamed)
